@@ -37,6 +37,8 @@ func (t *Term) String() string {
 		s = "$" + t.Name
 	case "fv":
 		s = "^" + t.Name
+	case "oparam":
+		s = "^$" + t.Name
 	case "const":
 		s = t.Name
 	case "field":
@@ -405,8 +407,123 @@ func (tb *TermBuilder) load(addr ssa.Value) *Term {
 		return tb.Of(a)
 	case *ssa.Global:
 		return tb.Of(a)
+	case *ssa.FreeVar:
+		if t := tb.capturedOnce(a); t != nil {
+			return t
+		}
 	}
 	return tb.Of(addr)
+}
+
+// capturedOnce: a captured variable that is written exactly once (in the
+// enclosing function, never in a closure) is named by the value stored there,
+// expressed in the enclosing function's terms (its parameters print as ^$name).
+func (tb *TermBuilder) capturedOnce(fv *ssa.FreeVar) *Term {
+	fn := tb.Fn
+	parent := fn.Parent()
+	if parent == nil {
+		return nil
+	}
+	idx := -1
+	for i, v := range fn.FreeVars {
+		if v == fv {
+			idx = i
+		}
+	}
+	if idx < 0 {
+		return nil
+	}
+	// find the binding in the parent
+	var binding ssa.Value
+	for _, b := range parent.Blocks {
+		for _, ins := range b.Instrs {
+			if mc, ok := ins.(*ssa.MakeClosure); ok && mc.Fn == ssa.Value(fn) && idx < len(mc.Bindings) {
+				binding = mc.Bindings[idx]
+			}
+		}
+	}
+	al, ok := binding.(*ssa.Alloc)
+	if !ok {
+		return nil
+	}
+	// stores in the parent
+	var stores []*ssa.Store
+	if refs := al.Referrers(); refs != nil {
+		for _, r := range *refs {
+			if st, ok := r.(*ssa.Store); ok && st.Addr == ssa.Value(al) {
+				stores = append(stores, st)
+			}
+		}
+	}
+	if len(stores) != 1 {
+		return nil
+	}
+	// no closure of the parent writes it
+	for _, b := range parent.Blocks {
+		for _, ins := range b.Instrs {
+			mc, ok := ins.(*ssa.MakeClosure)
+			if !ok {
+				continue
+			}
+			g := mc.Fn.(*ssa.Function)
+			for j, bv := range mc.Bindings {
+				if bv != ssa.Value(al) || j >= len(g.FreeVars) {
+					continue
+				}
+				if writesThrough(g, g.FreeVars[j]) {
+					return nil
+				}
+			}
+		}
+	}
+	pt := NewTermBuilder(tb.P, parent).Of(stores[0].Val)
+	return outerize(pt)
+}
+
+func writesThrough(g *ssa.Function, fv *ssa.FreeVar) bool {
+	refs := fv.Referrers()
+	if refs == nil {
+		return false
+	}
+	for _, r := range *refs {
+		switch x := r.(type) {
+		case *ssa.Store:
+			if x.Addr == ssa.Value(fv) {
+				return true
+			}
+		case *ssa.UnOp:
+		case *ssa.DebugRef:
+		case *ssa.MakeClosure:
+			// passed on to a nested closure: check it too
+			h := x.Fn.(*ssa.Function)
+			for j, bv := range x.Bindings {
+				if bv == ssa.Value(fv) && j < len(h.FreeVars) && writesThrough(h, h.FreeVars[j]) {
+					return true
+				}
+			}
+		default:
+			return true
+		}
+	}
+	return false
+}
+
+func outerize(t *Term) *Term {
+	if t == nil {
+		return nil
+	}
+	c := *t
+	c.str = ""
+	if c.Op == "param" {
+		c.Op = "oparam"
+	}
+	if len(t.Args) > 0 {
+		c.Args = make([]*Term, len(t.Args))
+		for i, a := range t.Args {
+			c.Args[i] = outerize(a)
+		}
+	}
+	return &c
 }
 
 // escapes reports whether an alloc is used for anything but loads/stores to
@@ -427,6 +544,14 @@ func (tb *TermBuilder) escapes(a *ssa.Alloc) bool {
 				return true
 			}
 		case *ssa.DebugRef:
+		case *ssa.MakeClosure:
+			// captured by a closure that never writes it: still a single-writer local
+			g := x.Fn.(*ssa.Function)
+			for j, bv := range x.Bindings {
+				if bv == ssa.Value(a) && j < len(g.FreeVars) && writesThrough(g, g.FreeVars[j]) {
+					return true
+				}
+			}
 		case *ssa.FieldAddr:
 			// reading fields of the local is fine; writing through them is not
 			if frefs := x.Referrers(); frefs != nil {
@@ -475,4 +600,71 @@ func CallArgs(c *ssa.CallCommon) []ssa.Value {
 		out = append(out, c.Value)
 	}
 	return append(out, c.Args...)
+}
+
+// Stable renders the term without SSA register names or allocation ordinals,
+// so that it can key audited entries and known findings across unrelated edits.
+func (t *Term) Stable() string {
+	if t == nil {
+		return "<nil>"
+	}
+	switch t.Op {
+	case "phi":
+		return "φ"
+	case "range":
+		return "ρ"
+	case "unk":
+		return "?"
+	case "new":
+		n := t.Name
+		if i := strings.Index(n, "#"); i >= 0 {
+			n = n[:i]
+		}
+		return "new:" + n
+	case "param":
+		return "$" + t.Name
+	case "fv":
+		return "^" + t.Name
+	case "oparam":
+		return "^$" + t.Name
+	case "const", "global", "fn":
+		return t.Name
+	case "field":
+		return t.Args[0].Stable() + "." + t.Name
+	case "call":
+		as := make([]string, len(t.Args))
+		for i, a := range t.Args {
+			as[i] = a.Stable()
+		}
+		return t.Name + "(" + strings.Join(as, ", ") + ")"
+	case "res":
+		if t.Idx == 0 {
+			return t.Args[0].Stable()
+		}
+		return fmt.Sprintf("%s#%d", t.Args[0].Stable(), t.Idx)
+	case "err":
+		return "err(" + t.Args[0].Stable() + ")"
+	case "bin":
+		return "(" + t.Args[0].Stable() + " " + t.Name + " " + t.Args[1].Stable() + ")"
+	case "un":
+		return t.Name + t.Args[0].Stable()
+	case "len", "cap":
+		return t.Op + "(" + t.Args[0].Stable() + ")"
+	case "idx", "lookup":
+		return t.Args[0].Stable() + "[" + t.Args[1].Stable() + "]"
+	case "slice":
+		lo, hi := "", ""
+		if len(t.Args) > 1 && t.Args[1] != nil {
+			lo = t.Args[1].Stable()
+		}
+		if len(t.Args) > 2 && t.Args[2] != nil {
+			hi = t.Args[2].Stable()
+		}
+		return t.Args[0].Stable() + "[" + lo + ":" + hi + "]"
+	case "typeassert":
+		return t.Args[0].Stable() + ".(" + t.Name + ")"
+	case "result":
+		return fmt.Sprintf("<result%d>", t.Idx)
+	}
+	return t.Op
 }
